@@ -6,6 +6,7 @@ Events == ndJsonDeserialize(IOEnv.TRACE_FILE)
 
 FailsE(e) == CASE e.op = "save" -> SaveClausesC02(e) \cup (IF e.grid THEN SaveClausesC04(e) ELSE {})
                [] e.op = "open" -> FailsOf(OpenClauses(e))
+               [] e.op = "agree" -> FailsOf(AgreeClauses(e))
                [] e.op = "roundtrip" -> FailsOf(RoundTripClauses(e))
                [] OTHER -> {"UNKNOWN_OP"}
 
